@@ -461,14 +461,25 @@ def h_simplification_steps_keep_delay_arguments_closed(eng):
     [C15.h_replace_blocks, C15.h_eliminable_counting, C15.h_alias_counting][k](eng)
 
 
+def h_fixed_flags_are_resolved_with_the_other_attributes(eng):
+    """_post_checks decides "fixed input" by the truth value of x.fixed.  An input declared `u(fixed = hold)` with a Boolean parameter
+    or constant carries the expression `hold` until _substitute_metadata replaces it (resolve_parameter_values,
+    replace_parameter_values, replace_constant_values, ...): EVERY expression-valued attribute -- `fixed` like value / min / max /
+    start / nominal -- has to get its own substituted value there, or an acceptable model is refused (a symbolic MX has no truth
+    value).  This is C13's contract of Model._substitute_metadata."""
+    from contracts import C13
+    C13.h_substitute_metadata(eng)
+
+
 HARNESSES = [("Model._post_checks", h_post_checks), ("Model._post_checks/no-delays", h_no_delays),
              ("Generator.exitExpression#delay-branch", h_delay_translation),
              ("Model.delay_arguments_function", h_delay_arguments_function), ("api._compile_model", h_compile_calls_post_checks),
              ("Model._substitute_delay_arguments", h_substitute_delay_arguments),
              ("Generator.exitExpression#delay-branch inside a for-loop", h_delay_translation_in_loop),
              ("Model._expand_vectors on delayed array expressions (delay states and arguments element by element)", h_expand_delays),
-             ("simplification steps: every removed symbol is substituted in the delay arguments", h_simplification_steps_keep_delay_arguments_closed)]
-EXPECTED_COVER = {"post.raises", "post.returns", "post.nodelay", "delay.done", "dafn.done", "compile.done", "subst.done", "delayloop.done", "expand.done", "count.alias", "count.eliminable"}
+             ("simplification steps: every removed symbol is substituted in the delay arguments", h_simplification_steps_keep_delay_arguments_closed),
+             ("Model._substitute_metadata: every expression-valued attribute (also `fixed`) is resolved", h_fixed_flags_are_resolved_with_the_other_attributes)]
+EXPECTED_COVER = {"post.raises", "post.returns", "post.nodelay", "delay.done", "dafn.done", "compile.done", "subst.done", "delayloop.done", "expand.done", "count.alias", "count.eliminable", "submeta.done"}
 BOUNDED = True
 LEVEL = "proof"
 TRUSTED = ["pyvc VC generator", "z3 5.1.0",
